@@ -307,6 +307,21 @@ def extra_short_series(ctx, rec):
                 rec.session([steps[0]], dict(CONCS[0], xc="list_none", ac="list_none"))
 
 
+def extra_valid_int(ctx, rec):
+    """C03: valid_range_test on integer arrays (no NaN available for a missing bound) and on lists with a dtype"""
+    g = gen_qc.Gen(ctx.seed + 41, size=8)
+    for rep in range(ctx.pick(120, 1500)):
+        c = g.valid()
+        if c["p"]["kind"] != "num":
+            continue
+        if rep % 2 == 0:
+            c["x"] = [v for v in c["x"] if v != gen_qc.NA]
+            conc = {"unit": 1.0, "off": 0, "tbase": 0, "xc": "i64"}
+        else:
+            conc = {"unit": 1.0, "off": 0, "tbase": 0, "xc": ["list_none", "list_nan", "tuple_nan"][rep % 3], "dtype": "float64"}
+        rec.session([({"kind": "base", "i": 0, "k": 0}, c)], conc)
+
+
 CARRIER_SETS_QUICK = {
     "xc": ["list_none", "list_nan", "tuple_nan", "f32", "i64", "ma_nan", "ma_junk", "series", "series_idx", "dask"],
     "tc": ["dt64us", "dt64ms", "dt64s", "pydt", "pdts", "dtindex", "series_naive", "series_utc", "dtindex_utc",
@@ -333,7 +348,9 @@ def extra_carriers(ctx, rec):
                 if fn == "press" and xc == "list_none":
                     continue        # None is not a documented missing marker for this test
                 if fn == "valid" and xc in ("list_none", "list_nan", "tuple_nan"):
-                    continue        # valid_range_test documents array / Series input (it reads .shape / .dtype)
+                    # "if your data is not already numpy-typed you can specify its dtype"
+                    variants.append({"xc": xc, "dtype": "float64"})
+                    continue
                 variants.append({"xc": xc})
             if fn in uses_aux:
                 for ac in CARRIER_SETS_QUICK["xc"]:
@@ -385,7 +402,8 @@ PLAN = {
             "random": {"fns": NOPRESS, "count": (400, 5000), "kinds": [], "size": (8, 24)}},
     "C03": {"mc": T([M("range", ["gross", "valid"], ["shiftboth", "recall"], 1, budget=14000)],
                     [M("range", ["gross", "valid"], ["shiftboth", "tighten"], 1, big=True, budget=150000)]),
-            "random": {"fns": ["gross", "valid"], "count": (500, 6000), "kinds": ["recall", "shiftboth"], "size": (10, 30)}},
+            "random": {"fns": ["gross", "valid"], "count": (500, 6000), "kinds": ["recall", "shiftboth"], "size": (10, 30)},
+            "extra": [extra_valid_int]},
     "C08": {"mc": T([M("clim", ["clim"], ["perturb"], 1, budget=16000)],
                     [M("clim", ["clim"], ["perturb", "tighten"], 1, big=True, budget=160000)]),
             "random": {"fns": ["clim"], "count": (500, 6000), "kinds": ["recall", "shiftt"], "size": (8, 24)}},
